@@ -25,13 +25,13 @@ CLAIMED = {
 
 CLAIMED.update({
     "C07": {
-        "technique": "TLA+ grammar (trees, precedence levels, canonical printing) enumerated by TLC; every generated program replayed into parser.Parse in several layouts; accepted sources trace-validated by TLC (StmtOK)",
-        "text": "TLC enumerates the program families of spec/GenProg.tla exhaustively (all pairs of the 16 binary-level operators in both groupings with decorated operands, triples, sign/index/call/paren nests in every operand context, an expression menu in every expression position, every operator with every combination of optional parts, operator and statement sequences) plus random deep trees; each terminal state carries the tree the grammar dictates and is parsed by the real Parse in 4-12 layouts with keyword synonyms; trees must be equal field by field. Real parses of other accepted sources are validated by TLC against the grammar's well-formedness predicate.",
+        "technique": "TLA+ grammar (trees, precedence levels, canonical printing) and a TLA+ transcription of the recursive-descent parser (ParseMachine) checked against it by TLC; every generated program replayed into parser.Parse in several layouts; accepted sources trace-validated by TLC (StmtOK)",
+        "text": "Design level: TLC checks that the parser model (cursor with end-of-input latch, split/endSplit, not-found vs opaque errors, back-tracking, precedence climbing) returns exactly the generated tree for every program of every family. Conformance: TLC enumerates the program families of spec/GenProg.tla exhaustively (all pairs of the 16 binary-level operators in both groupings with decorated operands, triples, sign/index/call/paren nests in every operand context, an expression menu in every expression position, every operator with every combination of optional parts, operator and statement sequences) plus random deep trees; each terminal state carries the tree the grammar dictates and is parsed by the real Parse in 4-12 layouts with keyword synonyms; trees must be equal field by field. Real parses of other accepted sources are validated by TLC against the grammar's well-formedness predicate.",
         "note": "Trusts TLC, the token->text renderer and the AST->record projection of the harness, and the lexer (C09).",
         "ref": "DESIGN.md 3.2, 4 (C07)",
     },
     "C08": {
-        "technique": "TLA+ token-accounting relation (Accounts/Align over Toks) evaluated by TLC on every source the real Parse accepts among all single-token edits of generated programs and random token soups",
+        "technique": "TLA+ token-accounting relation (Accounts/Align over Toks): at design level on everything the parser model (ParseMachine) accepts among all single-token edits; on the real code evaluated by TLC for every source the real Parse accepts among the same edits and random token soups",
         "text": "TLC generates every single-token corruption (delete, duplicate, transpose, truncate, insert from a 8-22 token menu incl. error tokens) of every base program of the operator/position families; each is parsed for real; for every accepted source the (Scan tokens, returned tree) observation is validated by TLC against Accounts: re-printing the tree must give back the tokens, only the two documented commas and empty statements may be absent.",
         "note": "Trusts TLC, the AST->record projection, and Scan for the significant tokens (C09). A Go transcription of the relation pre-filters; TLC decides and must agree with it.",
         "ref": "DESIGN.md 3.2, 4 (C08)",
@@ -43,15 +43,15 @@ CLAIMED.update({
         "ref": "DESIGN.md 4 (C10)",
     },
     "C11": {
-        "technique": "TLC-generated trees (every node type in every child position) replayed into parser.Walk; visit log compared with the child relation of the specification's tree; pruning at every node",
+        "technique": "TLA+ model of Walk (explicit-stack machine vs declarative child relation, spec/Walk.tla) checked by TLC on every generated statement; the model's visit log travels with each case and the real parser.Walk must visit the same nodes; pruning at every node",
         "text": "For every generated statement the real Walk runs with an always-true visitor and with a visitor returning false at each node in turn: every identifier and expression node exactly once, no node twice, never nil, ancestors first, pruned set = all minus strict descendants; panics are caught.",
         "note": "Sibling order unconstrained. Node enumeration by the harness mirrors Grammar.tla paths.",
         "ref": "DESIGN.md 3.3, 4 (C11)",
     },
     "C12": {
         "technique": "TLC-generated programs, planted violations, all single-token corruptions and pathological nestings (depth up to 2000) plus random byte/token soups run through Scan/SplitStatements/Parse/Walk/Compile under a panic trap and a watchdog",
-        "text": "All generator families, the stress family (nesting of parentheses, calls, indexes, signs, joins, unbalanced brackets, operator/pipe/comma/error-token cascades to depth 500/2000) and random inputs are executed for real with three parameter maps; a recovered panic or a call exceeding the watchdog limit is a violation, confirmed by replay.",
-        "note": "Wall-clock limit 8 s per call (measured, not modelled).",
+        "text": "All generator families, the stress family (nesting of parentheses, calls, indexes, signs, joins, unbalanced brackets, operator/pipe/comma/error-token cascades to depth 500/2000) and random inputs are executed for real with three parameter maps; a recovered panic or a call exceeding the watchdog limit is a violation, confirmed by replay. One open known finding (exponential let chains) is probed in a child process and reported as KNOWN-FINDING.",
+        "note": "Wall-clock limit 15 s per call (measured, not modelled).",
         "ref": "DESIGN.md 4 (C12)",
     },
     "C13": {
@@ -110,7 +110,7 @@ CLAIMED.update({
 CLAIMED.update({
     "C14": {
         "technique": "TLA+ model of the goroutine-level steps of Compile / initKnownFunctions (Conc) model-checked over all interleavings with negative controls; TLC-drawn schedules replayed on real goroutines in a -race build; recorded hook logs validated by TLC (TraceConc)",
-        "text": "TLC explores every interleaving of three goroutines issuing five calls at hook-point granularity and checks NoRace, InitOnce, ParamsUnchanged, ResultIsFunctionOfInput and deadlock freedom; the two negative-control configurations must fail. Schedules from tlc -simulate are replayed by the clock (no hand-offs that would hide races) on the real code built with -race, each round starting from a never-used function table; per-goroutine hook logs of free rounds are validated by TLC as behaviours of the model; bursts of 2/8/64 goroutines with mixed Compile/Parse/Scan calls run in fresh processes. Results must equal the same call alone for nil/zero/empty options, parameter maps must be unchanged, race reports are violations.",
+        "text": "TLC explores every interleaving of three goroutines issuing five calls at hook-point granularity and checks NoRace, InitOnce, ParamsUnchanged, ResultIsFunctionOfInput and deadlock freedom; the two negative-control configurations must fail. Schedules from tlc -simulate are replayed by the clock (no hand-offs that would hide races) on the real code built with -race, each round starting from a never-used function table; per-goroutine hook logs of free rounds are validated by TLC as behaviours of the model; bursts of 2/8/64 goroutines with mixed Compile/Parse/Scan calls run in fresh processes. Results must equal the same call alone for nil/zero/empty options, every (source, parameter contents) pair must give one result over the whole run incl. fresh processes, a call must show its own parameter snippet, parameter maps must be unchanged, race reports are violations.",
         "note": "Data races are detected by the Go race detector on the schedules and bursts the run executes; hooks exist only under build tag verif.",
         "ref": "DESIGN.md 3.8, 4 (C14), 5",
     },
